@@ -132,7 +132,8 @@ CLAIMED["C02"] = (
 CLAIMED["C03"] = (
     "MIR store/load path symmetry for every wrapper impl BlobStore and the DictZip entropy stage (R-SYM with codec-family stems), "
     "content flow of persistent fields (R-FLOW), header layout agreement (R-PAIR), batch-vs-single effect agreement (R-SIBLING.batch), "
-    "wrapper delegation to the inner store (R-DELEGATE), field restoration in derive-generated deserialisers (R-FLOW.serde)",
+    "wrapper delegation to the inner store (R-DELEGATE), field restoration in derive-generated deserialisers (R-FLOW.serde), "
+    "flag/payload-kind correlation over gated record construction sites (R-TAGKIND.record)",
     "static rules over MIR: what put applies get inverts on every put path; save/load carry the content of every persistent field; "
     "header writer and reader agree",
     "three structural clauses of C03; id allocation, len/contains/size bookkeeping, offset arithmetic and bitmap logic are not decided",
